@@ -151,7 +151,12 @@ class Tracker:
 
             # Advection
             if self.vertical_advection:
-                W = force.variables["w"]
+                # The copy in the state follows the particles when the
+                # output step has removed dead ones after force.update()
+                if "w" in state.variables:
+                    W = state["w"]
+                else:
+                    W = force.variables["w"]
                 Z += W * self.dt
 
             # Reflexive boundary conditions at surface
